@@ -796,6 +796,16 @@ func checkPartialOutput(p *Prog, r *Report) {
 		r.Anchor("R17f", "call of Ctx.Decls in translatePackage")
 		return
 	}
+	// only a package that loaded without errors is translated: with type errors go/types leaves holes in the
+	// type information and the translation of such a package is meaningless (and the command would exit 0)
+	okLoad := false
+	for k := range p.RelsAt(p.Rels(f), declsCall) {
+		if strings.Contains(k, ".Errors)") && (strings.HasPrefix(k, "0 == len(") || strings.HasSuffix(k, " <= 0")) {
+			okLoad = true
+		}
+	}
+	r.Check("R17f", "translatePackage translates only a package without load errors", instrPos(declsCall), okLoad,
+		"the call of Decls is not dominated by the fact len(pkg.Errors) == 0: a package with (some) load or type errors is translated as if it were well-typed")
 	// the local file value and the stores of its Imports / Decls fields
 	stores := map[string]*ssa.Store{}
 	var fileAlloc *ssa.Alloc
